@@ -155,6 +155,35 @@ def check_link_history(c1, c2, static):
     return bad
 
 
+def check_fanout(c1, c2, c3, first):
+    """one output read by two inputs with layouts of their own: the transformation handed to one link must not be changed by the other
+    link's metadata exchange (either exchange order); two publications, both inputs pull both"""
+    g1, g2, g3 = build(c1), build(c2), build(c3)
+    a, _, _ = located_array(c1, False)
+    wants = [located_array(c, False)[0] for c in (c2, c3)]
+    bad = []
+    try:
+        out = fm.Output("o", fm.Info(time=T0, grid=g1, units="m"))
+        inps = [fm.Input("i0", fm.Info(time=T0, grid=g2, units="m")), fm.Input("i1", fm.Info(time=T0, grid=g3, units="m"))]
+        for i in inps:
+            out >> i
+        for i in inps:
+            i.ping()
+        for k in ((0, 1) if first == 0 else (1, 0)):
+            inps[k].exchange_info()
+        out.push_data(a, T0)
+        out.push_data(a + 1000.0, T0 + H(1))
+        for step, off in ((0, 0.0), (1, 1000.0)):
+            for k in (0, 1):
+                d = inps[k].pull_data(T0 + H(step))
+                if tuple(d.magnitude.shape) != (1,) + wants[k].shape or not np.allclose(d.magnitude[0], wants[k] + off):
+                    bad.append(("fan_out_values_not_at_same_location", f"input {k} (exchanged {'first' if k == first else 'second'}), publication {step}: delivered {np.asarray(d.magnitude).tolist()}"))
+                    return bad
+    except Exception as e:  # noqa
+        bad.append(("exception", f"{type(e).__name__}: {str(e)[:80]}"))
+    return bad
+
+
 def point_set(cfg):
     _, ref = expected_locs(cfg)
     return sorted(tuple(round(float(x), 9) for x in c) for c in ref.values())
@@ -202,6 +231,12 @@ def run_case(case):
         res["sample"] = dict(kind="canon", cfg=case["cfgs"][0])
     elif kind == "link":
         for item in case["items"]:
+            if item[2] == "fanout":
+                res["n"] += 1
+                res["nontrivial"] += 1 if item[1] != item[3] else 0
+                for clause, detail in check_fanout(item[0], item[1], item[3], item[4]):
+                    res["violations"].append(viol(dict(kind="link_delivery", how=clause), f"Output({item[0]}) -> Input({item[1]}) and Input({item[3]}), exchange of input {item[4]} first: {clause} {detail[:160]}", dict(kind="link", items=[list(item)])))
+                continue
             if item[2] == "history":
                 res["n"] += 1
                 res["nontrivial"] += 1
@@ -236,7 +271,7 @@ def norm(case):
     if case["kind"] == "canon":
         return dict(case, cfgs=[fix(c) for c in case["cfgs"]])
     if case["kind"] == "link":
-        return dict(case, items=[[fix(it[0]), fix(it[1])] + list(it[2:]) for it in case["items"]])
+        return dict(case, items=[[fix(it[0]), fix(it[1])] + [fix(x) if isinstance(x, dict) else x for x in it[2:]] for it in case["items"]])
     return dict(case, items=[[fix(a), fix(b)] for a, b in case["items"]])
 
 
@@ -267,6 +302,12 @@ def run(tier, seed, agg):
                         # re-layout and unit conversion on the same link
                         links.append([cfg_of(cls, dim, loc, l1), cfg_of(cls, dim, loc, l2), True, False, ["m", "km"]])
                         links.append([cfg_of(cls, dim, loc, l1), cfg_of(cls, dim, loc, l2), False, True, ["km", "m"]])
+    # one output, two inputs with layouts of their own (all layout triples in 2 D, either exchange order)
+    lays2 = list(layouts(2))
+    for l1 in (lays2 if not q else [l for l in lays2 if l["order"] == "F"]):
+        for l2, l3 in itertools.product(lays2, repeat=2):
+            for first in (0, 1):
+                links.append([cfg_of("uniform", 2, "CELLS", l1), cfg_of("uniform", 2, "CELLS", l2), "fanout", cfg_of("uniform", 2, "CELLS", l3), first])
     # square / cubic domains with identical coordinates on all axes (a transposed array has the same shape here)
     for dim, dims in ((2, (3, 3)), (3, (3, 3, 3))):
         for loc in ("CELLS", "POINTS"):
@@ -315,7 +356,7 @@ def run(tier, seed, agg):
         level="exploration",
         rule="all ordered pairs of layouts (order x axes_reversed x per-axis direction) of one geometry in 1-3 D with non-square lengths, cells and points, uniform and rectilinear (irregular) grids, ESRI pairs; "
         "to/from_canonical round trip and xyz-increasing indexing on the coordinate-identity field; compatible_with against equality of independently computed data-point sets (plus different geometry/location/dimension/class); "
-        "on a real Output->Input link with/without time axis, plain/masked: every delivered value and mask bit at the same physical coordinate, shape (1,)+target shape, equal layouts passed through. non-trivial = unequal layout pairs",
+        "on a real Output->Input link with/without time axis, plain/masked: every delivered value and mask bit at the same physical coordinate, shape (1,)+target shape, equal layouts passed through; one output read by two inputs with layouts of their own (all layout triples in 2 D, either order of metadata exchange, two publications). non-trivial = unequal layout pairs",
         bound=dict(dims="1-3", lengths=DIMS),
         assumptions=["coordinates from the arithmetic reference of C14", "cell-vs-point grids with coinciding coordinates and structured-vs-unstructured twins are not generated (the statement does not classify them)"],
     )
